@@ -349,7 +349,8 @@ def returns_state(cx: Cx, m: FunctionInfo) -> str | None:
     attribute itself, an element of a container attribute that holds containers (a cache), or a container it has
     just stored there?  Returns the attribute's name.  (A caller that then changes the result changes the
     converter.)"""
-    key = (id(cx.model), m.qualname)
+    _STATE = cx.model.__dict__.setdefault("_memo_state", {})  # per model object: ids are reused after collection
+    key = m.qualname
     if key in _STATE:
         return _STATE[key]
     _STATE[key] = None
@@ -390,7 +391,8 @@ def returns_state(cx: Cx, m: FunctionInfo) -> str | None:
 def _passes_through(cx: Cx, callee: FunctionInfo) -> set:
     """Parameters of a constructor-like classmethod whose ELEMENTS can end up, as the same objects, among the
     records of the converter it returns (``cls([r if isinstance(r, Record) else Record(**r) for r in data])``)."""
-    key = (id(cx.model), callee.qualname)
+    _THROUGH = cx.model.__dict__.setdefault("_memo_through", {})
+    key = callee.qualname
     if key in _THROUGH:
         return _THROUGH[key]
     _THROUGH[key] = set()
